@@ -5,6 +5,18 @@ import json, pathlib
 ALL = [f'C{i:02d}' for i in range(1, 20)]
 
 CHECKS = {
+ 'C02': dict(
+   technique='Coq proof over Q (ring identities: order of the maps, isometry, z scaling, orientation, origin, identity) and over R (degree periodicity) + value-level differential at every call site',
+   text='Props/C02.v: the modelled map is rotate . flip . translate with z scaled by k; xy distances scale by c^2+s^2 (isometry for a '
+        'rotation), z differences by k, orientation flips exactly with one flip, the origin maps to (0,0), neutral settings give '
+        'the identity; cos/sin of degrees are invariant under whole turns of any sign (Reals). Tie to /repo: transform_points on '
+        'scalar / 1-point / n-point / float64 inputs, export_array2d files and plot2d traces are compared with the model fed with '
+        'cos/sin computed by the documented formula (radians(angle mod 360)) and k = n_env/n_glass exactly, for random and '
+        'special angles (negative, > 360, 0, None), shifts, flips and indices.',
+   note='Trusted: Coq kernel (Reals axioms for the three degree theorems: sig_forall_dec, sig_not_dec, functional_extensionality_dep); '
+        'libm cos/sin; float64 matmul noise within 1e-12 relative; the float32 shift subtraction is modelled exactly (rnd32), the '
+        'float64 promotion of 0-d inputs as tr_scalar.',
+   design='5/C02'),
  'C18': dict(
    technique='Coq proof (stable sort is a sorted permutation; table shape; cell = attribute; column-omission iff; preamble rule) + cell-level differential reading the .xlsx back',
    text='Props/C18.v: the modelled table has one row per structure - the waveguides as a sorted permutation first, then the markers '
